@@ -1,6 +1,6 @@
 """C04 configuration for ./check (keys: see checks/propcfg.py)."""
 CFG = {
-    "modules": ["VaxisModel.Props.C04", "VaxisModel.Props.C04Exit", "VaxisModel.Props.C04Prior", "VaxisModel.Props.C04Start", "VaxisModel.Witness.F404"],
+    "modules": ["VaxisModel.Props.C04", "VaxisModel.Props.C04Exit", "VaxisModel.Props.C04Prior", "VaxisModel.Props.C04Start", "VaxisModel.Props.C04Lex", "VaxisModel.Witness.F404"],
     "extractors": ["C04", "C07", "C18", "C11", "C01", "C10"],
     "drivers": ["C04"],
     "stateful": True,
@@ -19,8 +19,8 @@ CFG = {
             "non-trivial = a startup/setappid/suspend/resume/close line; distinct by case op list",
     "trusted_base": ["Spec.ModeTerm (mode terminal: ignores private modes it does not implement), Spec.Tokenize",
                      "writer prologue/epilogue model shared with C01 (tied by the C01 correspondence)",
-                     "direct token mapping of the three run-time writes (CSI > flags u, CSI n SP q, OSC 176 ; id ST): agreement with the lexer proved for flags 0..31, styles 0..6 "
-                     "and sample ids (kittyPush_lexes, userStyle_lexes, appIdRestore_lexes), real values by the correspondence run"],
+                     "direct token mapping of the run-time writes: CSI > flags u agrees with the lexer for EVERY natural number (Props/C04Lex.kittyPush_lexes_all: String.toUTF8, the lexer's CSI branch, "
+                     "both hex encoders, Nat.toDigits); CSI n SP q for the styles 0..6 the code can store (userStyle_lexes), OSC 176 ; id ST for sample ids (appIdRestore_lexes) and real values by the correspondence run"],
     "level_text": "balanced is proved for ALL run-time values and ALL sessions: for every one of the 2^9 assignments of the guard variables, every kitty flags value, user cursor style, "
                   "prior kitty stack depth (Nat), every application id except the one-character id '?' (which OSC 176 reads as the query: unsettable_id_is_query), and every list of operations "
                   "(frames with any renderer output - renderFrame_ok -, cursor requests with any position/style/visibility, SetAppID with any id, Suspend, Resume, in any number and order) "
